@@ -611,6 +611,11 @@ class Connection(object):
         return tuple(dir(obj))
 
     def _handle_inspect(self, id_pack):  # request handler
+        if not brine.dumpable(id_pack):
+            # an id pack is plain data. A reference sent in its place would be hashed - a request to
+            # the peer - while the table of local objects is locked, and any request served meanwhile
+            # that touches the table would block this thread on itself for good
+            raise TypeError("invalid id pack")
         if hasattr(self._local_objects[id_pack], '____conn__'):
             # When RPyC is chained (RPyC over RPyC), id_pack is cached in local objects as a netref
             # since __mro__ is not a safe attribute the request is forwarded using the proxy connection
